@@ -4,11 +4,14 @@ import z3
 
 Z3_TIMEOUT_MS = int(os.environ.get('TTVC_Z3_MS', '20000'))
 CVC5_TIMEOUT_S = int(os.environ.get('TTVC_CVC5_S', '60'))
+SEED = int(os.environ.get('TTVC_Z3_SEED', '0') or 0)      # proof-stability testing (tools/stability.py)
 
 
 def _solver(mode, timeout_ms):
     s = z3.Solver()
     s.set('timeout', timeout_ms)
+    if SEED:
+        s.set('random_seed', SEED)
     if mode == 'ematch':
         s.set('auto_config', False)
         s.set('smt.mbqi', False)
